@@ -43,7 +43,7 @@ func init() {
 		MinEvals:    floor(15000, 300000),
 		MinDistinct: floor(1500, 30000),
 		RequiredCells: func(string) []string {
-			cells := []string{"ctor/undef-did", "ctor/short-nonce", "ctor/ok", "go/int-types", "go/uint-types", "go/float", "go/nested", "go/unsupported", "go/out-of-range", "envelope/one-entry", "envelope/three-entries", "envelope/two-payloads", "envelope/other-tag", "envelope/unknown-tag", "accepted", "rejected", "codec/dagcbor", "codec/dagjson", "dec/generic", "dec/typed"}
+			cells := []string{"library-sealed/offered", "library-sealed/rejected", "library-sealed/accepted", "ctor/undef-did", "ctor/short-nonce", "ctor/ok", "go/int-types", "go/uint-types", "go/float", "go/nested", "go/unsupported", "go/out-of-range", "envelope/one-entry", "envelope/three-entries", "envelope/two-payloads", "envelope/other-tag", "envelope/unknown-tag", "accepted", "rejected", "codec/dagcbor", "codec/dagjson", "dec/generic", "dec/typed"}
 			for _, m := range []string{"dropped", "renamed", "null", "retyped", "out-of-range", "extra-field"} {
 				cells = append(cells, "mut/"+m)
 			}
@@ -547,6 +547,9 @@ func runC10(w *mon.W) {
 				map[string]any{"type": typ, "undef_case": undef, "nonce_len": nl, "fields": gen.Fields(tk).String()})
 		}
 	}
+
+	// ---------------- (2b) tokens the library itself seals
+	c10LibrarySealed(w)
 
 	// ---------------- (3) Go values
 	c10GoValues(w)
